@@ -25,7 +25,8 @@ CONSTANTS Senders, Receivers,    \* disjoint sets of thread ids (integers)
           SLOTS, BITS,
           MaxSpurious,           \* total spurious weak-CAS failures
           StaleFail,             \* may a failed CAS return a stale value (TRUE under C11)
-          OrdLoad, OrdDeqOk, OrdDeqFail, OrdEnqOk, OrdEnqFail,
+          OrdDeqLoad, OrdEnqLoad,  \* the first load of dequeue / of enqueue
+          OrdDeqOk, OrdDeqFail, OrdEnqOk, OrdEnqFail,
           Freeze                 \* TRUE: explore freeze mode (C08 step bound)
 
 Threads == Senders \cup Receivers
@@ -115,10 +116,11 @@ Rest == <<cell, nextVal, sent, got, fate, ndeliv, frozen, bad>>
 ----------------------------------------------------------------------------
 (* The first load of a dequeue / enqueue (Relaxed in the code). *)
 Q_Load(t, pcFrom, q, pcTo) ==
-    LET f == Top(t) IN
+    LET f == Top(t)
+        ord == IF pcFrom \in {"s_ld", "r_ld"} THEN OrdDeqLoad ELSE OrdEnqLoad IN
     /\ f.pc = pcFrom
-    /\ \E ts \in M!ReadTs(t, q, OrdLoad) :
-         /\ M!MRead(t, q, OrdLoad, ts)
+    /\ \E ts \in M!ReadTs(t, q, ord) :
+         /\ M!MRead(t, q, ord, ts)
          /\ SetTop(t, [f EXCEPT !.cur = M!ValAt(q, ts), !.pc = pcTo])
     /\ UNCHANGED <<todo, cell, nextVal, sent, got, fate, ndeliv, nspur, frozen, bad>>
 
